@@ -99,15 +99,21 @@ def postingNodes (p : Posting) : List TNode :=
   (match p.cost with | some c => commodityNode c.amount.commodity | none => []) ++
   (match p.assertion with | some b => commodityNode b.amount.commodity | none => [])
 
-/-- The payee (description when there is no `payee | note` split) starts one blank after the
-    date, or after date, blank, status mark, blank. -/
-def payeeNode (tx : Transaction) : List TNode :=
+/-- The tree has no position for the payee (the description when there is no `payee | note`
+    split): it is read off the header line of the file's text (`lns`) — the first character
+    after the date, an optional `=DATE`, an optional status mark and an optional `(code)` that
+    is not white space (`HL.PayeeRange.payeeStart`; that this is where the payee stands on every
+    header of the grammar is `HL.Props.C09.payeeNode_header`).  Without the text: one blank
+    after the date, or after date, blank, status mark, blank. -/
+def payeeNode (lns : Lines) (tx : Transaction) : List TNode :=
   let payee := if tx.payee == [] then tx.description else tx.payee
   if payee == [] then [] else
-    let col := tx.date.range.stop.col + 1 + (if tx.status == .none then 0 else 2)
+    let col := match HL.PayeeRange.payeeStart lns tx.date.range.start.line tx.date.range.stop.col with
+      | some col => col
+      | none => tx.date.range.stop.col + 1 + (if tx.status == .none then 0 else 2)
     [⟨.payee, payee, ⟨tx.date.range.start.line, col, tx.date.range.start.line, col + runeLen payee⟩, false⟩]
 
-def txNodes (tx : Transaction) : List TNode := payeeNode tx ++ tx.postings.flatMap postingNodes
+def txNodes (lns : Lines) (tx : Transaction) : List TNode := payeeNode lns tx ++ tx.postings.flatMap postingNodes
 
 /-- The commodity of a `commodity` / `P` directive: the tree gives the token's extent when the
     parser recorded its End (quotes included, as for a commodity in a posting); otherwise only
@@ -124,12 +130,12 @@ def directiveNodes : Directive → List TNode
     commodityNode p.commodity
   | _ => []
 
-def treeTNodes (j : Journal) : List TNode :=
-  j.transactions.flatMap txNodes ++ j.directives.flatMap directiveNodes
+def treeTNodes (lns : Lines) (j : Journal) : List TNode :=
+  j.transactions.flatMap (txNodes lns) ++ j.directives.flatMap directiveNodes
 
 def TNode.toSpan (lns : Lines) (n : TNode) : Span := ⟨n.kind, n.name, toLsp lns n.range, n.decl⟩
 
-def treeNodes (lns : Lines) (j : Journal) : List Span := (treeTNodes j).map (TNode.toSpan lns)
+def treeNodes (lns : Lines) (j : Journal) : List Span := (treeTNodes lns j).map (TNode.toSpan lns)
 
 /-- A node's range is one line of a real file: 1-based, within `uint32` after the shift; and
     where the text has that line, the range lies inside it and the line is shorter than 2³²
@@ -143,10 +149,10 @@ def TNode.sane (lns : Lines) (n : TNode) : Bool :=
 
 /-- The tree says exactly what the text's spans say. -/
 def faithful (lns : Lines) (j : Journal) (spans : List Span) : Prop :=
-  (∀ n ∈ treeTNodes j, n.sane lns = true) ∧ ∀ s, s ∈ treeNodes lns j ↔ s ∈ spans
+  (∀ n ∈ treeTNodes lns j, n.sane lns = true) ∧ ∀ s, s ∈ treeNodes lns j ↔ s ∈ spans
 
 def faithfulB (lns : Lines) (j : Journal) (spans : List Span) : Bool :=
-  (treeTNodes j).all (TNode.sane lns) &&
+  (treeTNodes lns j).all (TNode.sane lns) &&
   (treeNodes lns j).all (fun s => spans.any fun t => decide (t = s)) &&
   spans.all (fun s => (treeNodes lns j).any fun t => decide (t = s))
 
